@@ -100,8 +100,34 @@ def generate(repo):
     if not m:
         raise RuntimeError("import_words no longer has the shape `if <cond> { self.synchronize_lint_dict() }`")
     cond = re.sub(r"\s+", " ", m.group(1)).strip()
-    init = re.search(r"let\s+init_len\s*=\s*(.*?);", imp_body, re.S)
-    init_expr = re.sub(r"\s+", " ", init.group(1)).strip() if init else "?"
+    # shape since fix ba0a239: `let before = self.user_dictionary.clone(); extend_words(..);
+    # if self.user_dictionary != before { synchronize }` (the older `let init_len = ..word_count()` shape
+    # is no longer accepted: the model compares the dictionaries)
+    init = re.search(r"let\s+before\s*=\s*(.*?);", imp_body, re.S)
+    if not init:
+        raise RuntimeError("import_words no longer starts with `let before = <expr>;`")
+    init_expr = re.sub(r"\s+", " ", init.group(1)).strip()
+    imp_steps = events(imp_body, [
+        (r"let\s+before\s*=", "snapshot_before"),
+        (r"self\.user_dictionary\s*\.extend_words\(", "extend_words"),
+        (r"WordMetadata::default\(\)", "default_metadata"),
+        (r"if\s+self\.user_dictionary\s*!=\s*before", "compare_with_snapshot"),
+        (r"self\.synchronize_lint_dict\(\)", "synchronize"),
+    ])
+    # set_lint_config_from_json / _from_object: parse (error returns early), clear, merge
+    def setcfg(header, what, parse_rx):
+        body = fn_body(wasm, header, what)
+        ev = events(body, [
+            (parse_rx, "parse_or_return_err"),
+            (r"self\.lint_group\.config\.clear\(\)", "clear"),
+            (r"self\.lint_group\s*\.config\s*\.merge_from\(&mut new_config\)", "merge_new_config"),
+            (r"\.merge_from\(&mut serde", "merge_parsed_directly"),
+        ])
+        return ev
+    setcfg_json = setcfg(r"pub fn set_lint_config_from_json\(&mut self, json: String\)", "Linter::set_lint_config_from_json",
+                         r"let\s+mut\s+new_config\s*=\s*serde_json::from_str\(&json\)\.map_err\(\|v\| v\.to_string\(\)\)\?")
+    setcfg_obj = setcfg(r"pub fn set_lint_config_from_object\(&mut self, object: JsValue\)", "Linter::set_lint_config_from_object",
+                        r"let\s+mut\s+new_config\s*=\s*serde_wasm_bindgen::from_value\(object\)\.map_err\(\|v\| v\.to_string\(\)\)\?")
     sync_body = fn_body(wasm, r"fn synchronize_lint_dict\(&mut self\)", "synchronize_lint_dict")
     sync = events(sync_body, [
         (r"let\s+mut\s+lint_config\s*=\s*self\.lint_group\.config\.clone\(\)", "save_config"),
@@ -125,6 +151,29 @@ def generate(repo):
         (r"&self\.dictionary", "linter_dictionary"),
         (r"self\.ignored_lints\.ignore_lint\(&lint\.inner, &document\)", "ignore_inner_on_document"),
     ])
+    # what the premise "the context of an ignored lint does not depend on the dictionary" rests on:
+    # LintContext::from_lint blanks the dictionary metadata of word tokens (and the quote twin index), and
+    # Document::parse uses the dictionary for nothing but that metadata; the two wasm parsers take no dictionary
+    core_raw = lambda rel: open(os.path.join(repo, rel), encoding="utf-8").read()
+    lc = strip_comments(core_raw("harper-core/src/ignored_lints/lint_context.rs"))
+    lc_body = fn_body(lc, r"pub fn from_lint\(lint: &Lint, document: &Document\)", "LintContext::from_lint")
+    ctx_steps = events(lc_body, [
+        (r"document\.token_indices_intersecting\(lint\.span\)", "problem_tokens"),
+        (r"lint\.span\.start\.saturating_sub\(2\),\s*lint\.span\.start", "prequel_two_before_start"),
+        (r"Span::new_with_len\(lint\.span\.end,\s*2\)", "sequel_two_after_end"),
+        (r"\.with_len\(2\)", "OLD_window_relative_to_start"),
+        (r"t\.to_fat\(document\.get_source\(\)\)", "to_fat"),
+        (r"quote\.twin_loc\s*=\s*None", "blank_quote_twin_loc"),
+        (r"if\s+let\s+TokenKind::Word\(metadata\)\s*=\s*&mut\s+fat\.kind\s*\{\s*\*metadata\s*=\s*None;?\s*\}", "blank_word_metadata"),
+    ])
+    doc = strip_comments(re.sub(r"///[^\n]*", "", core_raw("harper-core/src/document.rs")))
+    parse_body = fn_body(doc, r"fn parse\(&mut self, dictionary: &impl Dictionary\)", "Document::parse")
+    dict_uses = []
+    for m in re.finditer(r"\bdictionary\b[^;\n]*", parse_body):
+        dict_uses.append(re.sub(r"\s+", " ", m.group(0)).strip())
+    parser_body = fn_body(wasm, r"fn create_parser\(&self\)", "Language::create_parser")
+    parser_ctors = re.findall(r"Box::new\(([^;\n]*?)\),?\s*(?:\n|$)", parser_body)
+    parser_ctors = [re.sub(r"\s+", " ", x).strip() for x in parser_ctors]
     serde_attrs = []
     a, b = item(wasm_raw, r"pub struct Lint\s*\{", "wasm Lint"); wl_fields, fa = fields(b); serde_attrs += fa + [x for x in a if "serde" in x]
     a, b = item(wasm_raw, r"pub struct Span\s*\{", "wasm Span"); ws_fields, fa = fields(b); serde_attrs += fa + [x for x in a if "serde" in x]
@@ -140,13 +189,20 @@ def generate(repo):
            "From Coq Require Import List String.", "Import ListNotations.", "Open Scope string_scope.", "",
            "(* steps of harper_wasm::Linter::lint, in source order *)",
            "Definition wasm_lint_pipeline : list string := %s." % coq_list(pipeline),
-           "(* import_words: `let init_len = <expr>` and the condition guarding synchronize_lint_dict *)",
-           "Definition wasm_import_words_init_len : string := \"%s\"." % init_expr.replace('"', '""'),
+           "(* import_words: `let before = <expr>`, the condition guarding synchronize_lint_dict, the order of its steps *)",
+           "Definition wasm_import_words_before : string := \"%s\"." % init_expr.replace('"', '""'),
+           "Definition wasm_import_words_steps : list string := %s." % coq_list(imp_steps),
+           "Definition wasm_set_config_json_steps : list string := %s." % coq_list(setcfg_json),
+           "Definition wasm_set_config_object_steps : list string := %s." % coq_list(setcfg_obj),
            "Definition wasm_import_words_sync_condition : string := \"%s\"." % cond.replace('"', '""'),
            "Definition wasm_synchronize_steps : list string := %s." % coq_list(sync),
            "Definition wasm_apply_suggestion_steps : list string := %s." % coq_list(apply),
            "Definition wasm_import_ignored_steps : list string := %s." % coq_list(impign),
            "Definition wasm_ignore_lint_steps : list string := %s." % coq_list(ign),
+           "(* the ignore context: windows and what LintContext::from_lint blanks; how Document::parse uses the dictionary; the parsers harper-wasm constructs *)",
+           "Definition lint_context_steps : list string := %s." % coq_list(ctx_steps),
+           "Definition document_parse_dictionary_uses : list string := %s." % coq_list(dict_uses),
+           "Definition wasm_parser_constructors : list string := %s." % coq_list(parser_ctors),
            "(* what serde derives the JSON from *)",
            "Definition lint_kind_variants : list string := %s." % coq_list(kind_vars),
            "Definition suggestion_variants : list string := %s." % coq_list(sug_vars),
